@@ -177,6 +177,21 @@ func Generate(genseed uint64, stream string, thorough bool) *Case {
 	c.FindSucc = r.Chance(1, 3)
 
 	switch stream {
+	case "cancel":
+		// the caller's context ends: before the call, right after the source reference was resolved (before
+		// the root task starts), or after the k-th event for every k up to the length of a run
+		c.MapRoot, c.Platform, c.Mount = -1, "", false
+		switch r.Intn(8) {
+		case 0, 1:
+			c.CancelAt, c.CancelDeadline = -1, r.Bool()
+		case 2, 3:
+			c.CancelAt = -2
+			if c.Mode == "g" {
+				c.CancelAt = -1
+			}
+		default:
+			c.CancelAt = 1 + r.Intn(8*len(g.Nodes)+4)
+		}
 	case "platimage":
 		// WithTargetPlatform on an image-manifest root: SelectManifest reads the manifest and its config
 		// blob from the source in the prologue (matching and non-matching platforms, wrong config type)
@@ -398,6 +413,9 @@ func Generate(genseed uint64, stream string, thorough bool) *Case {
 	case "sched":
 		// controlled schedules (testing/synctest): contention matters, so small K
 		c.Sched = true
+		if r.Chance(1, 4) {
+			c.CancelAt = 1 + r.Intn(6*len(g.Nodes)+4) // cancellation at a scheduler-chosen point
+		}
 		c.K = common.Pick(r, []int{1, 2, 2, 3, 3, 0})
 		c.Src = common.Pick(r, []string{"mem", "mem", "oci"})
 		c.Dst = common.Pick(r, []string{"mem", "mem", "oci"})
